@@ -12,6 +12,14 @@ are answered per case by the `host_parse` hook (which is also how every `url_lib
 validated); the real binary: `create --node` -> stored pair (independent decoder) -> `show --json` and
 text -> `link --peer` x.pe decoded by a standard query-string parser.
 
+X9: the library parameters are no longer only assumed. coq/Model/UrlHost.v models `url::Host::parse` on a stated fragment
+(bracketed IPv6 literals; ASCII texts without `%` and without `xn--` labels: IPv4 in every WHATWG spelling, ASCII domains)
+and the three IP serialisers; coq/Proofs/UrlHostProofs.v proves every `url_lib` field for them, for all addresses. Every
+`host_parse` hook evaluation of this run is ALSO compared with the extracted `u_hparse` / `u_std4` / `u_std6` / `u_url6`
+(kind, numeric address, std text, url text) whenever the text is inside the fragment; a dedicated host-text stream (IPv4
+spellings and overflow edges, every zero-run position and length of IPv6, IPv4 tails, ASCII domains) feeds it; the
+fragment / unmodelled counts are in the evidence.
+
 Direct oracle (independent of the model): the property's own rejection classes, the expected normal
 form for canonical IPv4 / any IPv6 (own RFC 5952 writer over `ipaddress`) / plain ASCII domains, value
 identity of the stored host judged by `ipaddress`, and the round trips on the implementation's outputs.
@@ -34,8 +42,11 @@ MANIFEST = dict(
          "and the lazy split are exactly where three unit tests cannot reach.",
     ref="DESIGN.md section 5, C17",
     technique="Coq proof over a Gallina model + translator-generated tables + model/implementation correspondence run",
-    note="Partial: IDNA, IPv4/IPv6 text syntax and the regex digit class belong to the url / std / regex crates; they are "
-         "Section hypotheses (url_lib) validated on every run through the host_parse hook, not theorems. Trusted: Coq kernel, "
+    note="The url crate's Host::parse on a stated fragment (bracketed IPv6; ASCII text without % and without xn-- labels: IPv4 in "
+         "every WHATWG spelling, ASCII domains) and the std / url IP serialisers are modelled concretely (Model/UrlHost.v) and every "
+         "url_lib hypothesis is PROVED for them, for all 2^32 / 2^128 addresses (Proofs/UrlHostProofs.v), and compared with the crate "
+         "on every host text of the run. Partial: IDNA on non-ASCII / punycode labels, percent-decoding and the regex digit class "
+         "remain Section hypotheses (ext_lib, nd_*) validated on every run through the host_parse hook, not theorems. Trusted: Coq kernel, "
          "tools/rs2v_hostport.py, extraction (ExtrOcamlBasic) + runner/driver.d/hostport.ml, hooks + harness, Python oracle.")
 
 FORBIDDEN = set(range(0, 33)) | {ord(c) for c in '#/:<>?@[\\]^|'} | {127}
@@ -232,6 +243,178 @@ CORPUS = [
 ]
 
 
+# ---------------------------------------------------------------- host texts for the concrete url-crate model (X9)
+
+def v4_number(r, v):
+    k = r.random()
+    if k < 0.45:
+        return "%d" % v
+    if k < 0.6:
+        return "0x%x" % v
+    if k < 0.68:
+        return "0X%X" % v
+    if k < 0.85:
+        return "0%o" % v
+    if k < 0.93:
+        return "0" * r.randrange(1, 4) + "%d" % v                  # octal if its digits allow, else an error
+    return r.choice(["0x", "0X", "", "08", "09", "0xg", "1a", "-1", "+1", "0x%xg" % v])
+
+
+def host_ipv4(r):
+    """every accepted spelling (decimal / hex / octal parts, 1-4 parts, last part filling the rest, trailing dot) and the
+    overflow edges"""
+    n = r.choice([1, 2, 3, 4, 4, 4, 4, 5])
+    parts = []
+    for i in range(n):
+        last = i == n - 1
+        room = 1 << (8 * (4 - (n - 1))) if last and n <= 4 else 256
+        v = r.choice([0, 1, 7, 8, 9, 10, 99, 100, 127, 254, 255, 256, 257, room - 1, room, room + 1, 65535, 65536, 16777215, 16777216,
+                      4294967295, 4294967296, 4294967297, r.randrange(256), r.randrange(max(room, 1)), r.randrange(1 << 33)])
+        parts.append(v4_number(r, v))
+    s = ".".join(parts)
+    k = r.random()
+    if k < 0.15:
+        s += "."
+    elif k < 0.18:
+        s += ".."
+    elif k < 0.21:
+        s = "." + s
+    elif k < 0.26:
+        s = r.choice(["a.", "a-b.", "_.", "x."]) + s
+    return s
+
+
+V4_EDGES = ["0", "00", "0x", "0X", "0x.0x", "1", "255", "256", "0xffffffff", "0x100000000", "4294967295", "4294967296", "037777777777",
+            "040000000000", "1.16777215", "1.16777216", "1.2.65535", "1.2.65536", "1.2.3.255", "1.2.3.256", "255.255.255.255",
+            "256.255.255.255", "1.256.3.4", "1.2.3.4.", "1.2.3.4..", "1.2.3.4.5", "1.2.3.", "1..2", ".1", "1.", "0x7f.1", "0177.1",
+            "08.1", "1.08", "1.0x", "0x1.0x2.0x3.0x4", "0x0000000000000000000001", "000000000000000000001", "1.2.3.0x", "1.2.3.04",
+            "999999999999999999999", "0xfffffffffffffffffff", "1.2.3.4294967296", "a.1", "a.0x1", "a.1.", "1.a", "1.2.3.4a", "1e3", "0x1p3"]
+
+
+def host_ipv6_sweep(r):
+    """every zero pattern of the eight groups: the full text, the canonical text, and every sub-run of every zero run
+    written as `::` (so: every position and length, two equal runs, a single zero group compressed or not, leading /
+    trailing runs); hex case and leading zeros varied"""
+    out = []
+    for pat in range(256):
+        g = [0 if pat >> i & 1 else r.choice([1, 0xa, 0xff, 0x100, 0xdb8, 0xffff, r.randrange(1, 65536)]) for i in range(8)]
+        def hx(x):
+            k = r.random()
+            s = "%x" % x
+            return s.upper() if k < 0.15 else s.zfill(r.choice([2, 3, 4])) if k < 0.3 else s
+        out.append(":".join("%x" % x for x in g))
+        out.append(rfc5952(sum(x << (16 * (7 - i)) for i, x in enumerate(g))))
+        subruns = [(a, b) for a in range(8) for b in range(a + 1, 9) if all(x == 0 for x in g[a:b])]
+        for a, b in (subruns if len(subruns) <= 6 else r.sample(subruns, 6)):
+            parts = [hx(x) for x in g]
+            out.append(":".join(parts[:a]) + "::" + ":".join(parts[b:]))
+    return out
+
+
+def host_ipv6(r):
+    g = gen_groups(r)
+    k = r.random()
+    t = write_v6(r, g)
+    if k < 0.45:
+        return t
+    if k < 0.55:                                                   # an IPv4 tail in every position the parser allows or refuses
+        n = r.randrange(0, 8)
+        head = ":".join("%x" % x for x in g[:n])
+        tail = "%d.%d.%d.%d" % tuple(r.choice([0, 1, 9, 10, 255, 256, r.randrange(256)]) for _ in range(4))
+        tail = r.choice([tail, tail, "0" + tail, tail + ".1", tail[:-2], tail + ".", tail.replace(".", "..", 1), "1.2.3", "a.2.3.4"])
+        return r.choice([head + ":" + tail if head else tail, head + "::" + tail, "::" + head + ":" + tail, "::" + tail, "::ffff:" + tail])
+    if k < 0.65:
+        return r.choice(["", ":", "::", ":::", "::::", "1", "1:", ":1", "1::", "::1", "1:2:3:4:5:6:7", "1:2:3:4:5:6:7:8", "1:2:3:4:5:6:7:8:9",
+                         "1:2:3:4:5:6:7::", "::2:3:4:5:6:7:8", "1::3:4:5:6:7:8", "1:2:3:4:5:6:7::8", "::1:2:3:4:5:6:7:8", "1::2::3",
+                         "12345::", "::12345", "g::", "::g", "1:2:3:4:5:6:7:8:", ":1:2:3:4:5:6:7:8", "1:2:3:4:5:6:7:", "::0000", "::00000",
+                         "0:0:0:0:0:0:0:0", "0:0:0:0:0:0:0:1", "1:0:0:0:0:0:0:0", "::1%eth0", "::1 ", " ::1", "::ffff:1.2.3.4", "::1.2.3.4",
+                         "::ffff:0:1.2.3.4", "64:ff9b::1.2.3.4", "1:2:3:4:5:6:1.2.3.4", "1:2:3:4:5:6:7:1.2.3.4", "1:2:3:4:5::1.2.3.4",
+                         "::1.2.3.4:5", "1.2.3.4::", "1.2.3.4", "::\u00e9", "\u00e9::"])
+    s = t                                                          # one or two edits
+    for _ in range(r.choice([1, 1, 2])):
+        i = r.randrange(len(s) + 1)
+        c = r.choice(":::..0fFgG19 %]x")
+        op = r.random()
+        s = s[:i] + c + s[i:] if op < 0.4 else s[:i] + s[i + 1:] if op < 0.7 else s[:i] + c + s[i + 1:]
+    return s
+
+
+def host_domain(r):
+    """ASCII domains: upper case, digits-only labels, trailing dot, `_`, hyphens, every printable ASCII character, forbidden
+    code points; `xn--` labels, `%` and non-ASCII text are outside the fragment (counted)"""
+    k = r.random()
+    if k < 0.5:
+        return gen_domain(r)
+    labels = []
+    for _ in range(r.choice([1, 1, 2, 3])):
+        kk = r.random()
+        if kk < 0.1:
+            labels.append(r.choice(["xn--a", "XN--A", "xN--", "xn-", "xn-a", "axn--b", "x--n", "-xn--a", "xn--bcher-kva"]))
+        elif kk < 0.25:
+            labels.append(r.choice(["0", "1", "09", "08", "0x1", "0X", "0x", "255", "256", "4294967296", "0xg", "1a", "a1", "1-", "-1"]))
+        else:
+            labels.append("".join(chr(r.choice([r.randrange(0x21, 0x7f), r.randrange(0x61, 0x7b), r.randrange(0x41, 0x5b), 0x2d, 0x5f,
+                                                 r.randrange(0, 0x80)])) for _ in range(r.choice([1, 2, 3, 5, 9]))))
+    s = ".".join(labels)
+    if r.random() < 0.15:
+        s += "."
+    if r.random() < 0.05:
+        s += r.choice(["\u00e9", "%41", "%"])
+    return s
+
+
+def urlhost_step(ctx, H):
+    """host texts aimed at the concrete model of the url crate; each goes to the host_parse hook and to UrlHost.u_hparse
+    (compared in HostOracle.compare), and to the direct oracle"""
+    r = ctx.rng
+    texts = {}
+    def add(cls, s, bracket=False):
+        b = s.encode("utf-8") if isinstance(s, str) else s
+        texts.setdefault((b"[" + b + b"]") if bracket else b, cls)
+    for s in V4_EDGES:
+        add("ipv4-edge", s)
+    for s in host_ipv6_sweep(r):
+        add("ipv6-zero-run-sweep", s, True)
+    for c in range(128):
+        for s in (bytes([c]), b"a" + bytes([c]) + b"b", b"1." + bytes([c]) + b"2", b"[::" + bytes([c]) + b"]", b"[1" + bytes([c]) + b":2]"):
+            add("ascii-sweep", s)
+    n = ctx.n(9000, 150000)
+    for _ in range(n):
+        k = r.random()
+        if k < 0.35:
+            add("ipv4", host_ipv4(r))
+        elif k < 0.75:
+            s = host_ipv6(r)
+            add("ipv6", s, True)
+            if r.random() < 0.05:
+                add("ipv6-half-bracket", r.choice(["[" + s, s + "]", "[" + s + "]]", "[[" + s + "]"]))
+        else:
+            add("domain", host_domain(r))
+    by_cls = {}
+    for t, cls in texts.items():
+        by_cls.setdefault(cls, []).append(t)
+    for cls, ts in sorted(by_cls.items()):
+        ctx.count("gen:host/" + cls, len(ts))
+        H.ask(ts, cls)
+    # the direct oracle on the same texts (the property's own rejection classes and normal forms, ipaddress for IPv6)
+    for t, cls in texts.items():
+        try:
+            exp = oracle_expect(t.decode("utf-8") + ":1")
+        except UnicodeDecodeError:
+            continue
+        res = H.memo[t]
+        case = {"host_text": t, "answer": res, "oracle": list(exp), "generator": "host/" + cls,
+                "reproduce": "printf 'hostparse %s\\n' | imdl-verif-harness   # or: imdl torrent create --input FILE --node %s" % (lib.hexs(t), shq(t.decode("utf-8") + ":1"))}
+        if exp[0] == "reject" and res is not None:
+            ctx.violation("oracle-failure", "host %r is accepted as %r but must be rejected: %s" % (t, res["shown"], exp[1]), case)
+        elif exp[0] == "accept":
+            want_shown = exp[1].rsplit(":", 1)[0].encode()
+            if res is None:
+                ctx.violation("oracle-failure", "host %r is rejected although it is a well-formed host" % t, case)
+            elif res["shown"] != want_shown or res["kind"] != exp[2] or (exp[2] in "46" and res["addr"] != exp[3]):
+                ctx.violation("oracle-failure", "host %r is read as %r (kind %s, address %d), expected %r" % (t, res["shown"], res["kind"], res["addr"], want_shown), case)
+
+
 # ---------------------------------------------------------------- the direct oracle (independent of the model)
 
 def oracle_expect(text):
@@ -334,13 +517,39 @@ class HostOracle:
     def __init__(self, ctx):
         self.ctx, self.memo = ctx, {}
 
-    def ask(self, texts):
+    def ask(self, texts, cls="other"):
         new = sorted({t for t in texts if t not in self.memo})
-        for t, rep in zip(new, self.ctx.harness(["hostparse " + lib.hexs(t) for t in new])):
+        reps = self.ctx.harness(["hostparse " + lib.hexs(t) for t in new])
+        mods = self.ctx.model(["u_hparse " + lib.hexs(t) for t in new]) if self.ctx.modelrun else [None] * len(new)
+        for t, rep, m in zip(new, reps, mods):
             if not (rep.startswith("OK ") or rep.startswith("ERR ")):
                 self.ctx.violation("oracle-failure", "Host::parse did not return normally on %r: %s" % (t, rep),
                                    {"host_text": t, "reply": rep, "reproduce": "printf 'hostparse %s\\n' | imdl-verif-harness" % lib.hexs(t)})
             self.memo[t] = parse_hostparse(rep)
+            if m is not None:
+                self.compare(t, rep, m, cls)
+
+    def compare(self, t, rep, m, cls):
+        """the concrete model of the url crate (Model/UrlHost.v) against the crate, on every text inside the fragment"""
+        ctx = self.ctx
+        if m == "UNMODELLED":
+            ctx.count("urlhost:unmodelled")
+            ctx.count("urlhost:unmodelled:" + ("non-ascii" if any(c >= 0x80 for c in t) else "percent" if b"%" in t else "xn--label"))
+            return
+        ctx.cov["evaluations"] += 1
+        ctx.cov["traces_validated_against_impl"] += 1
+        impl = "ERR" if rep.startswith("ERR ") else rep
+        ctx.count("urlhost:in-fragment")
+        ctx.count("urlhost:in-fragment:" + (impl.split(" ")[1] if impl.startswith("OK ") else "rejected"))
+        ctx.distinct(("urlhost", cls, impl[:4], t[:1] == b"[", len(t) > 12))
+        if impl != m:
+            ctx.cov["disagreements_checked"] += 1
+            ctx.violation("model-impl-disagreement",
+                          "UrlHost.u_hparse / u_std4 / u_std6 / u_url6 and url::Host::parse (kind, address, std text, Host Display) "
+                          "differ on the host text %r: impl %s, model %s" % (t, impl[:120], m[:120]),
+                          {"host_text": t, "impl": rep, "model": m, "generator": "host/" + cls,
+                           "reproduce": "printf 'hostparse %s\\n' | imdl-verif-harness   # model: printf 'u_hparse %s\\n' | modelrun"
+                                        % (lib.hexs(t), lib.hexs(t))})
 
     def table(self, cands):
         return ",".join(table_entry(t, self.memo[t]) for t in dict.fromkeys(cands)) or "~"
@@ -578,6 +787,9 @@ def run(ctx):
             ctx.violation("model-impl-disagreement", "HostPort.hp_from_bencode and Deserialize for HostPort differ on %r (impl %s, model %s)"
                           % (b, iu[:60], m[:80]), case)
 
+    # ---- 3a. host texts aimed at the concrete model of the url crate (Model/UrlHost.v)
+    urlhost_step(ctx, H)
+
     # ---- 3. the library hypotheses, on everything Host::parse was asked above
     check_library(ctx, H)
 
@@ -813,7 +1025,12 @@ def e2e_reread(ctx, ub, impl_u, pu):
 
 def finish(ctx):
     ctx.assumptions += [
-        "url_lib (Section hypotheses of every c17_* theorem; each validated on every host text of this run through the host_parse hook): "
+        "Model/UrlHost.v is url 2.5.2 Host::parse / parse_ipv4addr / parse_ipv6addr / write_ipv6 and core's Display for Ipv4Addr / Ipv6Addr "
+        "on the fragment (compared with the crate on every in-fragment host text of this run: kind, address, std text, Host Display); outside "
+        "the fragment (non-ASCII text, % escapes, xn-- labels) Host::parse is only assumed to satisfy ext_lib (print/parse, no IPv6 without "
+        "brackets, domain shape, forbidden code points refused)",
+        "url_lib (hypotheses of the c17_* theorems that are stated for an arbitrary library; proved for the concrete model by "
+        "c17_library_hypotheses_proved; each also validated on every host text of this run through the host_parse hook): "
         "Host::parse reads back what Host prints as the same value; it reads the std IPv6 text in brackets as the same address; parsed "
         "domains are non-empty and free of forbidden code points; IPv4/IPv6 texts consist of digits/dots resp. lower-case hex/colons/dots "
         "and an IPv6 text contains a colon; the empty host and every unbracketed host with a forbidden code point (C0, space, # / : < > ? @ "
@@ -828,10 +1045,15 @@ def finish(ctx):
              "short/hex/octal forms), IPv6 in brackets (random zero runs, partial compression, upper case, padded groups, IPv4 tails, "
              "mapped/compatible/NAT64) and without, ports {0,1,080,65535,leading zeros, 65536, 99999, empty, sign, spaces, unicode digits, "
              "huge}, and a malformed stream (no colon, bracket edges, forbidden characters, newlines, 1-3 random edits of valid texts, "
-             "symbol soup); stored pairs written by imdl plus mutated ones (port range, arity, kinds, brackets, byte flips, truncation); "
+             "symbol soup); host texts for the concrete url-crate model: IPv4 in every spelling (decimal/hex/octal parts, 1-5 parts, last part "
+             "filling the rest, trailing dots, overflow edges 255/256, 0xffffffff, 4294967296), IPv6 (all 256 zero patterns x every sub-run "
+             "compressed, canonical and full forms, upper case, padded groups, IPv4 tails in every position, too many groups, `:::`, edits), "
+             "ASCII domains (every ASCII character, digit-only / 0x labels, `_`, hyphens, trailing dots; xn-- / % / non-ASCII counted as "
+             "unmodelled); stored pairs written by imdl plus mutated ones (port range, arity, kinds, brackets, byte flips, truncation); "
              "a case is distinct/non-trivial by (generator class, outcome, host kind, port at a bound, port renormalised)",
         trusted_base=["Coq 8.16.1 kernel (coqc)", "tools/rs2v_hostport.py (GenHostPort)",
-                      "extraction with ExtrOcamlBasic + runner/driver.d/hostport.ml (table-driven library parameters, regex-syntax Nd table)",
+                      "extraction with ExtrOcamlBasic + runner/driver.d/hostport.ml (table-driven library parameters, regex-syntax Nd table) "
+                      "+ runner/driver.d/urlhost.ml (the concrete url-crate model)",
                       "Rust hooks hostport_parse / hostport_to_bencode / hostport_from_bencode / host_parse + harness line protocol",
                       "Python oracle in tools/props/c17.py (ipaddress, urllib.parse, lib.bdecode_strict)"],
     )
@@ -857,6 +1079,7 @@ def replay(ctx, path):
         t = case["host_text"]
         t = bytes.fromhex(t["hex"]) if isinstance(t, dict) else t.encode()
         print("impl  :", ctx.harness(["hostparse " + lib.hexs(t)])[0])
+        print("model :", ctx.model(["u_hparse " + lib.hexs(t)])[0])
     elif "nodes" in case or "why" in case or "torrent_hex" in case:
         d = tempfile.mkdtemp(prefix="c17-replay-")
         try:
